@@ -91,6 +91,7 @@ def finish (t : Table) (n : String) (r : Except PyErr W) (extra : String := "") 
   | .error e => (t, errText e)
 
 def step (t : Table) : List String → Option (Table × String)
+  | ["wreset"] => some ([], "ok")        -- a new history: forget the objects of the previous one
   | ["wnew", n, k, d, dok, cnt, nc, st, cap, fill, props, tim, sc] =>
     match parseKind k, d.toNat?, optInt cnt, optInt nc, optInt st, optInt cap, fill.toInt?, parseProps props,
           parseTiming tim, sc.toInt? with
